@@ -46,7 +46,7 @@ pub fn datas() -> Vec<Vec<u8>> {
 }
 
 pub fn line_lists() -> Vec<Vec<String>> {
-    vec![vec![], vec![s("")], vec![s("a")], vec![s("a"), s("é")], vec![s(""), s("b")]]
+    vec![vec![], vec![s("")], vec![s("a")], vec![s("a"), s("é")], vec![s(""), s("b")], vec![s("b"), s("")], vec![s("c\n")]]
 }
 
 /// The call alphabet in logical coordinates (/d/a, /d/b)
@@ -123,6 +123,12 @@ fn line_ok(l: &str) -> bool {
 fn lines_ok(ls: &[String]) -> bool {
     !ls.is_empty() && ls.iter().all(|l| line_ok(l))
 }
+/// "line helpers add exactly one newline per line" is stated for every line; the only inputs the docs
+/// leave open are those whose joined text is empty (no lines at all, or a single empty line), which
+/// rivia treats as "nothing to write"
+fn payload_defined(ls: &[String]) -> bool {
+    !ls.join("\n").is_empty()
+}
 fn lines_payload(ls: &[String]) -> Vec<u8> {
     // exactly one newline per line
     let mut v = vec![];
@@ -150,7 +156,7 @@ fn model_step(m: &Model, op: &Op) -> Expect {
         Op::WriteAll(p, d) => set(p, d.clone()),
         Op::WriteHandle(p, chunks, _) => set(p, chunks.concat()),
         Op::WriteLines(p, ls) => {
-            if lines_ok(ls) {
+            if payload_defined(ls) {
                 set(p, lines_payload(ls))
             } else {
                 Expect::Open { target: p.clone(), keep_prefix: false }
@@ -160,14 +166,14 @@ fn model_step(m: &Model, op: &Op) -> Expect {
         Op::AppendAll(p, d) => set(p, cat(old(p), d)),
         Op::AppendHandle(p, chunks, _) => set(p, cat(old(p), &chunks.concat())),
         Op::AppendLine(p, l) => {
-            if line_ok(l) {
+            if !l.is_empty() {
                 set(p, cat(cat(old(p), l.as_bytes()), b"\n"))
             } else {
                 Expect::Open { target: p.clone(), keep_prefix: true }
             }
         },
         Op::AppendLines(p, ls) => {
-            if lines_ok(ls) {
+            if payload_defined(ls) {
                 set(p, cat(old(p), &lines_payload(ls)))
             } else {
                 Expect::Open { target: p.clone(), keep_prefix: true }
@@ -470,8 +476,8 @@ fn op_label(op: &Op) -> String {
     match op {
         Op::WriteHandle(..) => "write()+chunks+drop".into(),
         Op::AppendHandle(..) => "append()+chunks+drop".into(),
-        Op::WriteLines(_, ls) | Op::AppendLines(_, ls) if !lines_ok(ls) => format!("{}[outside line domain]", op.name()),
-        Op::AppendLine(_, l) if !line_ok(l) => format!("{}[outside line domain]", op.name()),
+        Op::WriteLines(_, ls) | Op::AppendLines(_, ls) if !payload_defined(ls) => format!("{}[outside line domain]", op.name()),
+        Op::AppendLine(_, l) if l.is_empty() => format!("{}[outside line domain]", op.name()),
         other => other.name().into(),
     }
 }
